@@ -540,6 +540,16 @@ m("sortmap-comparator-not-injective", "ORD-SORTMAP", ["C16"], "break", MS,
 m("sortmap-refactor-comparator-flipped", "ORD-SORTMAP", ["C16"], "refactor", MS,
   "\t\tsort.Slice(keys, func(i, j int) bool { return keys[i].s < keys[j].s })", "\t\tsort.Slice(keys, func(i, j int) bool { return keys[j].s > keys[i].s })", "", True, "the same order, spelled the other way round")
 
+m("reslice0-annotations-set-aside", "OWN-RESLICE0", ["C01", "C12"], "break", TW,
+  "\tas := w.annotations\n\tw.clear()\n", "\tas := w.annotations\n\tw.clear()\n\tw.annotations = as[:0]\n", "[:0]", True,
+  "the annotations pending for the first value share their array with the field the symbol table's own annotation is appended to")
+m("escrune-x-escape-as-byte", "TAB-ESCRUNE", ["C02"], "break", TK,
+  "\tr, err := t.readEscapedChar(nonClobText)\n\tif err != nil {\n\t\treturn err\n\t}\n\tsb.WriteRune(r)", "\tr, err := t.readEscapedChar(nonClobText)\n\tif err != nil {\n\t\treturn err\n\t}\n\tsb.WriteByte(byte(r))", "escape read in text mode", True,
+  "\"\\xE9\" yields the byte E9 instead of U+00E9")
+m("escrune-clob-reads-text-mode", "TAB-ESCRUNE", ["C02", "C07"], "break", TK,
+  "\tr, err := t.readEscapedChar(clobText)", "\tr, err := t.readEscapedChar(nonClobText)", "escape mode", True,
+  "a clob accepts \\u escapes")
+
 os.makedirs(os.path.dirname(os.path.abspath(__file__)), exist_ok=True)
 with open(os.path.join(os.path.dirname(os.path.abspath(__file__)), "core.json"), "w") as f:
     json.dump(M, f, indent=1)
